@@ -1,4 +1,5 @@
 use std::collections::HashSet;
+use syn::ext::IdentExt;
 use syn::visit_mut::VisitMut;
 
 #[derive(Copy, Clone, Eq, PartialEq)]
@@ -57,19 +58,21 @@ fn simplify_pat_idents(sig: &mut syn::Signature) -> ParamStatus {
 
 /// Rename (by appending `_`) every parameter that has the same name as the function itself,
 /// which the generated method has to call, or as a parameter before it.
+///
+/// `r#x` and `x` are the same identifier, so names are compared without the `r#` prefix.
 fn make_idents_unique(sig: &mut syn::Signature) {
     let mut taken_idents: HashSet<String> = HashSet::new();
-    taken_idents.insert(sig.ident.to_string());
+    taken_idents.insert(sig.ident.unraw().to_string());
 
     for fn_arg in sig.inputs.iter_mut() {
         if let syn::FnArg::Typed(pat_type) = fn_arg {
             if let syn::Pat::Ident(param_ident) = pat_type.pat.as_mut() {
                 let mut ident = param_ident.ident.clone();
-                while taken_idents.contains(&ident.to_string()) {
+                while taken_idents.contains(&ident.unraw().to_string()) {
                     // note: `format_ident` turns a raw identifier into a plain one
                     ident = quote::format_ident!("{}_", ident);
                 }
-                taken_idents.insert(ident.to_string());
+                taken_idents.insert(ident.unraw().to_string());
                 param_ident.ident = ident;
             }
         }
@@ -140,14 +143,14 @@ fn autogenerate_for_non_idents(sig: &mut syn::Signature) {
         .filter_map(|fn_arg| match fn_arg {
             syn::FnArg::Receiver(_) => None,
             syn::FnArg::Typed(pat_type) => match pat_type.pat.as_ref() {
-                syn::Pat::Ident(pat_ident) => Some(pat_ident.ident.to_string()),
+                syn::Pat::Ident(pat_ident) => Some(pat_ident.ident.unraw().to_string()),
                 _ => None,
             },
         })
         .collect();
 
     // a generated name must not shadow the function that the method has to call either
-    taken_idents.insert(sig.ident.to_string());
+    taken_idents.insert(sig.ident.unraw().to_string());
 
     fn generate_ident(index: usize, attempts: usize, taken_idents: &mut HashSet<String>) -> String {
         let ident = format!(
